@@ -373,7 +373,7 @@ func runDirect(sc *scenario, tr *hx.Trace, base string, r *hx.Rng) {
 	leader.Start()
 	srvWait := usync.NewWaitCloser(nil)
 	api := &apiServer{leader: leader, wait: srvWait}
-	ln, err := net.Listen("tcp", "127.0.0.1:0")
+	ln, err := hx.Listen()
 	if err != nil {
 		hx.Fatal("%v", err)
 	}
@@ -463,7 +463,7 @@ func runScenario(sc *scenario, tr *hx.Trace, base string) {
 	leader.Start()
 	srvWait := usync.NewWaitCloser(nil)
 	api := &apiServer{leader: leader, wait: srvWait, cut: sc.interrupt}
-	ln, err := net.Listen("tcp", "127.0.0.1:0")
+	ln, err := hx.Listen()
 	if err != nil {
 		hx.Fatal("%v", err)
 	}
